@@ -12,14 +12,14 @@ EXTENDS Integers, Sequences, TLC, Json, IOUtils, CSV, FiniteSets, SequencesExt
 Out   == IOEnv.VERIF_OUT
 Depth == IF "VERIF_DEPTH" \in DOMAIN IOEnv THEN atoi(IOEnv.VERIF_DEPTH) ELSE 12
 R(X) == RandomElement(X)
-Labels == {"", "a", "ab", "C", "z", "y", "r", "t", "w", "x", "L", "R", "simple_challenge", "multiproof", "ipa", "input point", "long40"}
+Labels == {"", "a", "ab", "C", "z", "y", "r", "t", "w", "x", "L", "R", "simple_challenge", "multiproof", "ipa", "input point", "long40", "L55", "L56", "L63", "L64", "L65", "L100", "L119", "L128", "L200", "L300"}
 \* "mbuf", "sacc", "acc": the driver hands over the SAME slice / scalar variable / element variable each time, changed in place since its last use
 Msgs   == {"", "a", "ab", "b32", "b100", "b1000", "b1023", "b1024", "b1025", "b4096", "b5000", "b70000", "mbuf", "mbuf"}
 Scalars == {"0", "1", "5", "r-1", "r-2", "2^128", "rnd1", "rnd2", "sacc", "mont:1", "mont:5", "mont:2^64-1", "mont:2^64"}     \* mont:k = the scalar whose stored (Montgomery) words are k
 Points  == {"gen", "id", "srs0", "srs255", "gen.z2", "gen.flip", "srs7.zrnd", "2gen.proj", "id.flip", "acc", "acc", "acc"}
 Op(o, l, m) == [op |-> o, label |-> l, arg |-> m]
 VARIABLES prog
-Init == prog = << Op("new", R({"simple_protocol", "multiproof", "test", "", "x"}), "") >>
+Init == prog = << Op("new", R({"simple_protocol", "multiproof", "test", "", "x", "long40", "L55", "L56", "L63", "L64", "L65", "L100", "L128", "L200"}), "") >>
 Next ==
   \/ /\ Len(prog) < Depth /\ prog # <<>>
      /\ \/ prog' = Append(prog, Op("domsep", R(Labels), ""))
